@@ -55,6 +55,10 @@ func VerifC11_StatusWrite() {
 		hookStatusCopy = gen.DeepCopy(hookStatus).(map[string]interface{})
 	}
 
+	// a lagging informer may still show the parent WITH the status that is about
+	// to be written (status flapped back, or somebody changed the live status
+	// meanwhile): what counts is the live object, read afresh
+	cacheShowsDesired := rt.Bool("cached-parent-already-shows-the-desired-status")
 	// live object: same / spec edited since / replaced under the same name / gone
 	liveKind := rt.Choice("live", 4)
 	var live *unstructured.Unstructured
@@ -88,6 +92,15 @@ func VerifC11_StatusWrite() {
 	var liveBefore *unstructured.Unstructured
 	if live != nil {
 		liveBefore = live.DeepCopy()
+	}
+	if cacheShowsDesired {
+		rt.Cover("cache-shows-desired-status")
+		st := map[string]interface{}{}
+		if hookStatusCopy != nil {
+			st = gen.DeepCopy(hookStatusCopy).(map[string]interface{})
+		}
+		st["observedGeneration"] = gen0
+		cached.Object["status"] = st
 	}
 
 	_, err := pc.updateParentStatus(cached, hookStatus)
